@@ -184,7 +184,7 @@ func runHostile(w *evw, ep epoch, codes map[common.Address][]byte, input []byte,
 	var res [3]interface{}
 	select {
 	case res = <-done:
-	case <-time.After(20 * time.Second):
+	case <-time.After(5 * time.Minute):
 		evm.Cancel()
 		res = [3]interface{}{"hang", 0, "watchdog"}
 	}
